@@ -21,8 +21,18 @@ fn machine(bytes: &[u8], layout: usize, regs: usize) -> Axecutor {
         ax.mem_init_area(DATA, vec![0x11; 0x100]).unwrap();
         ax.mem_init_area(STK, vec![0x22; 0x100]).unwrap();
     }
+    if layout == 2 {
+        // areas at both ends of the address space: address arithmetic at the extremes
+        ax.mem_init_area(0, vec![0x33; 0x100]).unwrap();
+        ax.mem_init_area(0u64.wrapping_sub(0x100), vec![0x44; 0x100]).unwrap();
+    }
     for k in 0..16 {
-        let v = if regs == 0 { DATA + 0x80 } else { crate::emu::filler_gpr(k) };
+        let v = match regs {
+            0 => DATA + 0x80,
+            1 => crate::emu::filler_gpr(k),
+            2 => 0,
+            _ => 0xFFFF_FFFF_FFFF_FFF8,
+        };
         ax.reg_write_64(crate::emu::GPR64[k], v).unwrap();
     }
     if regs == 0 {
@@ -38,8 +48,8 @@ fn one(e: &mut EnumCtx, bytes: &[u8]) {
     let mut all = crate::common::Fp::new();
     all.bytes(&bytes[..bytes.len().min(8)]);
     e.state(all.0);
-    for layout in 0..2 {
-        for regs in 0..2 {
+    for (layout, regs) in [(0usize, 0usize), (1, 0), (1, 1), (2, 2), (2, 3)] {
+        {
             let mut ax = machine(bytes, layout, regs);
             let out = crate::emu::step(&mut ax);
             e.count("transitions", 1);
@@ -166,7 +176,7 @@ pub fn run(tier: Tier) -> i32 {
             alloc_limit: 1 << 30,
             ..Default::default()
         },
-        wall_cap_secs: if tier.is_thorough() { 2400 } else { 50 },
+        wall_cap_secs: if tier.is_thorough() { 2400 } else if crate::common::embedded_fd().is_some() { 1500 } else { 50 },
         crash_subject: "step".into(),
     };
     let g = gen(tier.is_thorough());
@@ -178,7 +188,7 @@ pub fn run(tier: Tier) -> i32 {
         run.findings.merge(f);
         run.cov("devlike_profile_run", summary);
     }
-    enum_evidence(&mut run, &out, "one case = a byte string used as code: (a) every 1- and 2-byte prefix x 4 fillers (thorough: every 3-byte prefix x 2 fillers), (b) legacy prefix menu x REX menu x every 1-byte and 0F-escaped opcode x every ModRM x SIB menu; each stepped in 2 layouts (code only; code+data+stack) x 2 register states (all registers pointing into mapped memory; distinct filler with all flags set), under catch_unwind, an allocation guard and a hang watchdog; states = distinct 8-byte code prefixes; distinct_nontrivial = distinct (first 8 bytes, outcome class and RIP of the 4 runs)");
+    enum_evidence(&mut run, &out, "one case = a byte string used as code: (a) every 1- and 2-byte prefix x 4 fillers (thorough: every 3-byte prefix x 2 fillers), (b) legacy prefix menu x REX menu x every 1-byte and 0F-escaped opcode x every ModRM x SIB menu; each stepped in 5 (layout, register state) combinations: code only / code+data+stack with all registers pointing into mapped memory, code+data+stack with distinct filler and all flags set, and areas at both ends of the address space with all registers 0 / all registers 2^64-8, under catch_unwind, an allocation guard and a hang watchdog; states = distinct 8-byte code prefixes; distinct_nontrivial = distinct (first 8 bytes, outcome class and RIP of the 5 runs)");
     run.guard("cases", out.cases >= 1_000_000 || out.capped, format!("{} byte strings", out.cases));
     let okc = out.counters.get("ok").cloned().unwrap_or(0);
     let errc = out.counters.get("err").cloned().unwrap_or(0);
